@@ -1,0 +1,38 @@
+//go:build verif
+
+package vm
+
+import "sync/atomic"
+
+// VerifState is a read-only snapshot of interpreter registers, exposed only when the
+// repository is built with `-tags verif` (verification harness in /verif). It must be
+// read while the VM is not running.
+type VerifState struct {
+	IP, SP, FP int
+	Halt       int32
+	Running    bool
+	StartCount int64
+	Modules    int
+	LoadedCode int
+}
+
+// VerifState returns the registers of a stopped VM.
+func (vm *VirtualMachine) VerifState() VerifState {
+	return VerifState{
+		IP: vm.ip, SP: vm.sp, FP: vm.fp,
+		Halt:       atomic.LoadInt32(&vm.halt),
+		Running:    vm.running,
+		StartCount: vm.startCount,
+		Modules:    len(vm.modules),
+		LoadedCode: len(vm.loadedCode),
+	}
+}
+
+// VerifStackTop returns the operand stack contents (bottom first) of a stopped VM.
+func (vm *VirtualMachine) VerifStack() []any {
+	out := make([]any, 0, vm.sp+1)
+	for i := 0; i <= vm.sp && i < MaxStackDepth; i++ {
+		out = append(out, vm.stack[i])
+	}
+	return out
+}
